@@ -108,6 +108,14 @@ func concurrentPhase(c *common.Ctx, res *common.Result) {
 				}
 			}
 			if bad != "" && !reported {
+				// replay the recorded schedule before trusting the failure
+				r2 := &explore.Run{Prefix: append([]int{}, r.Choices...)}
+				outs2, verdict2, _ := runConcurrent(texts, r2, false)
+				if r2.Err != nil || verdict2 != verdict || strings.Join(outs2, "|") != strings.Join(outs, "|") {
+					res.Note("a failing interleaving of concurrent parses did not replay identically: not reported")
+					res.Cap("an execution did not replay identically (machinery)")
+					return true
+				}
 				reported = true
 				var hx, quoted []string
 				for _, t := range texts {
